@@ -359,6 +359,25 @@ class E1:
         key = "E1|%s|%s|%s" % (b.id, op, desc)
         if key in ALLOW:
             return "allow", ALLOW[key], desc, True
+        # the reviewed site may have moved, with its expression unchanged, into a private function that is only reached from the function the
+        # entry names (`reserve_inner` split into `reserve_inner_shared` / `reserve_inner_unshare`): the entry travels with it
+        if b.kind in ("fn", "assoc_fn") and not str(b.vis).startswith("Public"):
+            from .inline import callers_of
+            seen_, cur = set(), [b]
+            for _ in range(4):
+                nxt = []
+                for x_ in cur:
+                    for c_ in callers_of(self.facts, x_.did):
+                        if c_.did in seen_ or self.facts.is_test(c_):
+                            continue
+                        seen_.add(c_.did)
+                        nxt.append(c_)
+                if not nxt:
+                    break
+                hits = [c_ for c_ in nxt if "E1|%s|%s|%s" % (c_.id, op, desc) in ALLOW]
+                if hits and len(nxt) == len(hits):
+                    return "allow", ALLOW["E1|%s|%s|%s" % (hits[0].id, op, desc)] + " (site moved into %s)" % b.id.rsplit("::", 1)[-1], desc, True
+                cur = nxt
         what = "shift amount can reach the bit width" if op in ("Shl", "Shr") else "can overflow"
         return "bad", "caller-controlled operand, no dominating guard: `%s` %s (debug builds panic here, release builds wrap)" % (desc, what), desc, True
 
